@@ -271,20 +271,23 @@ type Options struct {
 	SkipResources bool
 }
 
-var pristineSystem map[postscript.Name]bool
+var (
+	pristineSystem map[postscript.Name]bool
+	pristineOnce   sync.Once
+)
 
 // StateWithSystem is State plus a section listing the entries of systemdict
 // that a pristine interpreter does not have (definitions made while
 // systemdict was the current dictionary, e.g. inside eexec).
 func StateWithSystem(intp *postscript.Interpreter) string {
 	initNames()
-	if pristineSystem == nil {
+	pristineOnce.Do(func() {
 		m := map[postscript.Name]bool{}
 		for k := range postscript.NewInterpreter().SystemDict {
 			m[k] = true
 		}
 		pristineSystem = m
-	}
+	})
 	extra := postscript.Dict{}
 	for k, v := range intp.SystemDict {
 		if !pristineSystem[k] {
